@@ -1,6 +1,6 @@
 (** C13 - Size limits are enforced on every transport, and traffic within them is accepted.
     This file holds statements only; every proof is `exact <lemma>`. *)
-From SioV Require Import Eio.Batcher Eio.BatcherProofs.
+From SioV Require Import Eio.Batcher Eio.BatcherProofs Eio.Limits Eio.LimitsProofs Eio.LimitsCheck.
 
 (** Batching neither drops, duplicates nor reorders packets (any transport, any limit). *)
 Theorem C13_batches_concat : forall max polling ps,
@@ -35,3 +35,101 @@ Example C13_example :
   let p := mkPacket false 4 [1;2;3;4;5;6;7;8;9]%N in
   map (@length _) (write_writable 15 true [p; p; p]) = [1; 1; 1]%nat.
 Proof. vm_compute. reflexivity. Qed.
+
+(** * Limit decisions, every transport, both directions (Eio/Limits.v)
+
+    [limit_on c]: DisableMaxBufferSize is false and MaxBufferSize >= 0; [the_limit c] is
+    MaxBufferSize, 1e6 when left at 0.  Transports: POST with Content-Length, chunked POST (size not
+    declared), WebSocket, polling GET response.  Sizes are wire bytes, any [Z]. *)
+
+(** The OPEN packet announces exactly the limit the server enforces; 0 when it is disabled. *)
+Theorem C13_announced_is_limit : forall c,
+  (limit_on c -> announced_max_payload c = the_limit c /\ (0 < the_limit c)%Z) /\
+  (c_disabled c = true -> announced_max_payload c = 0%Z).
+Proof. exact announced_is_limit_full. Qed.
+
+(** The server never takes more than limit+1 bytes of one inbound message from any transport,
+    however its size is declared or not declared (the extra byte is the one that shows an
+    undeclared size to be over the limit); what it accepts is within the limit and was read in
+    full; what it does not accept closes the transport. *)
+Theorem C13_server_never_buffers_beyond : forall c t size,
+  limit_on c -> (0 <= size)%Z ->
+  let o := decide c C2S t size in
+  (o_pulled o <= the_limit c + 1)%Z /\
+  (o_accept o = true -> o_pulled o = size /\ (size <= the_limit c)%Z) /\
+  (o_accept o = false -> o_closed o = true /\ (the_limit c < size)%Z).
+Proof. exact server_never_buffers_beyond. Qed.
+
+(** An inbound message over the limit is never delivered and the transport is closed; a POST is
+    answered 413, and with a declared size not one byte of the body is read. *)
+Theorem C13_over_limit_rejected_and_closed : forall c t size,
+  limit_on c -> (the_limit c < size)%Z ->
+  let o := decide c C2S t size in
+  o_accept o = false /\ o_closed o = true /\
+  (t <> WS -> o_status o = 413%Z) /\ (t = PostCL -> o_pulled o = 0%Z).
+Proof. exact over_limit_rejected_and_closed. Qed.
+
+(** Every message within the limit announced in the handshake is accepted, in both directions, on
+    every transport, and the connection stays open. *)
+Theorem C13_within_limit_accepted : forall c d t size,
+  (0 <= size)%Z -> within_announced c size ->
+  let o := decide c d t size in
+  o_accept o = true /\ o_pulled o = size /\ o_closed o = false.
+Proof. exact within_limit_accepted. Qed.
+
+(** With DisableMaxBufferSize every size is accepted in both directions on every transport. *)
+Theorem C13_disabled_accepts_all : forall c d t size,
+  c_disabled c = true -> (0 <= size)%Z ->
+  let o := decide c d t size in
+  o_accept o = true /\ o_pulled o = size /\ o_closed o = false.
+Proof. exact disabled_accepts_all. Qed.
+
+(** The WebSocket library's per-message limit reader (SetReadLimit(l) stores l+1), run under
+    io.ReadAll over EVERY way of cutting the message into frames and reads, accepts exactly the
+    messages of at most l bytes and hands on l+1 bytes of a longer one; some run always exists. *)
+Theorem C13_ws_limit_reader_exact : forall l size,
+  (0 <= size)%Z -> (0 <= l)%Z ->
+  (exists r, lr_run size (l + 1) 0 r) /\
+  forall r, lr_run size (l + 1) 0 r ->
+    match r with
+    | RDone got => got = size /\ ws_outcome (Some l) size = accepted (-1) size
+    | RTooBig got => got = (l + 1)%Z /\ ws_outcome (Some l) size = rejected (-1) (l + 1)
+    end.
+Proof. exact ws_limit_reader_exact. Qed.
+
+(** net/http's MaxBytesReader under io.ReadAll, over every way of cutting the body into reads:
+    a body of at most max bytes is read in full, of a longer one max bytes are handed on and
+    max+1 are taken from the connection. *)
+Theorem C13_max_bytes_reader_exact : forall body max,
+  (0 <= body)%Z -> (0 <= max)%Z ->
+  (exists r, mbr_run body max 0 0 r) /\
+  forall r, mbr_run body max 0 0 r ->
+    r = (if fst (max_bytes_read body max) then RDone body else RTooBig max,
+         snd (max_bytes_read body max)).
+Proof. exact max_bytes_reader_exact. Qed.
+
+(** The two halves together: every request of several packets that the client batcher produces
+    under the announced maxPayload is accepted by the server that announced it. *)
+Theorem C13_batches_accepted_by_server : forall c ps,
+  (0 < announced_max_payload c)%Z ->
+  Forall (fun b => length b = 1%nat \/
+                   o_accept (decide c C2S PostCL (payload_len b)) = true)
+         (write_writable (announced_max_payload c) true ps).
+Proof. exact batches_accepted_by_server. Qed.
+
+(** The executable property evaluated by the check on the implementation's observations holds of
+    everything the model does (any configuration, direction, transport, size). *)
+Theorem C13_model_satisfies_oracle : forall max dis d t size,
+  (0 <= size)%Z -> oracle (case_of_model max dis d t size) = true.
+Proof. exact model_satisfies_oracle. Qed.
+
+(** Non-vacuity: limit 100; 100 bytes pass and 101 do not, on each inbound transport; the client
+    accepts 40000 bytes over WebSocket under the default limit (the size that used to kill it). *)
+Example C13_limits_example :
+  let c := mkCfg 100 false in
+  map (fun t => (o_accept (decide c C2S t 100), o_accept (decide c C2S t 101), o_pulled (decide c C2S t 101)))
+      [PostCL; PostChunked; WS]
+  = [(true, false, 0%Z); (true, false, 101%Z); (true, false, 101%Z)]
+  /\ o_accept (decide (mkCfg 0 false) S2C WS 40000) = true
+  /\ limit_on c /\ the_limit c = 100%Z.
+Proof. vm_compute. repeat split; congruence. Qed.
